@@ -11,7 +11,10 @@ pub use searcher::*;
 pub use writer::*;
 
 use crate::{base::MetricItem, Result};
+#[cfg(not(sentinel_verif))]
 use lazy_static::lazy_static;
+#[cfg(sentinel_verif)]
+use sentinel_verif_rt::lazy_static;
 use regex::Regex;
 use std::cmp::Ordering;
 use std::collections::HashMap;
